@@ -225,6 +225,9 @@ pub struct Actor {
     pub id: usize,
     pub world: Arc<World>,
     ghost: Cell<bool>,
+    /// every read of the clock by the code under test is a scheduling point (a boundary
+    /// labelled "clock"): whoever reads the time may have been stalled just before
+    pub clock_yields: Cell<bool>,
     allocs: Cell<u64>,
     next_preempt: Cell<u64>,
     fds: RefCell<Vec<c_int>>,
@@ -291,6 +294,7 @@ impl Actor {
             id,
             world,
             ghost: Cell::new(false),
+            clock_yields: Cell::new(false),
             allocs: Cell::new(0),
             next_preempt: Cell::new(u64::MAX),
             fds: RefCell::new(Vec::new()),
@@ -390,12 +394,26 @@ impl Actor {
         self.fds.borrow().contains(&fd)
     }
 
+    /// backed by a child process of its own (as opposed to a thread of the worker)
+    pub fn is_proc(&self) -> bool {
+        self.proc_link.is_some()
+    }
+
     /// Publish `op`, wake the controller, park until granted.
-    pub fn yield_op(&self, mut op: Op) -> Decision {
+    pub fn yield_op(&self, op: Op) -> Decision {
         let _g = HarnessGuard::new();
         if let Some(l) = &self.proc_link {
             return self.yield_proc(l, op);
         }
+        // whatever process-wide lock of a foreign runtime this thread holds (the Python
+        // GIL) is handed back while it is parked
+        let tok = park_before();
+        let d = self.yield_thread(op);
+        park_after(tok);
+        d
+    }
+
+    fn yield_thread(&self, mut op: Op) -> Decision {
         op.prev_ret = self.last_ret.get();
         op.prev_errno = self.last_errno.get();
         let w = &self.world;
@@ -731,6 +749,34 @@ unsafe fn stamp_fd(a: &Actor, fd: c_int) {
 
 /// Run a mediated call.  `real` performs the call (possibly shortened to `n` bytes).
 /// Handles ghosting, failure injection and crash placement uniformly.
+static PARK_BEFORE: AtomicUsize = AtomicUsize::new(0);
+static PARK_AFTER: AtomicUsize = AtomicUsize::new(0);
+
+/// Called around every park of a thread-backed actor: `before` returns a token that is given
+/// to `after` once the actor runs again.  Neither may allocate through the Rust allocator.
+pub fn set_park_hooks(before: fn() -> usize, after: fn(usize)) {
+    PARK_BEFORE.store(before as usize, Ordering::SeqCst);
+    PARK_AFTER.store(after as usize, Ordering::SeqCst);
+}
+
+fn park_before() -> usize {
+    let f = PARK_BEFORE.load(Ordering::Relaxed);
+    if f == 0 {
+        0
+    } else {
+        let f: fn() -> usize = unsafe { std::mem::transmute(f) };
+        f()
+    }
+}
+
+fn park_after(tok: usize) {
+    let f = PARK_AFTER.load(Ordering::Relaxed);
+    if f != 0 && tok != 0 {
+        let f: fn(usize) = unsafe { std::mem::transmute(f) };
+        f(tok)
+    }
+}
+
 unsafe fn mediated<F: FnMut(Option<usize>) -> i64>(a: &Actor, op: Op, mut real: F) -> i64 {
     if a.ghost.get() {
         set_errno(libc::EIO);
@@ -1300,6 +1346,9 @@ pub unsafe extern "C" fn fstatat64(
 #[no_mangle]
 pub unsafe extern "C" fn clock_gettime(clk: libc::clockid_t, ts: *mut libc::timespec) -> c_int {
     if let Some(a) = cur() {
+        if a.clock_yields.get() {
+            a.boundary("clock", "");
+        }
         let ns = a.world.now_ns() as i64 + a.clock_skew_ns;
         let ns = ns.max(0);
         let base = if clk == libc::CLOCK_REALTIME || clk == libc::CLOCK_REALTIME_COARSE {
